@@ -95,6 +95,7 @@ theorem step_ledger {s s' : St} (op : Op) (hI : Inv s) (h : step s op = some s')
       exact ⟨0, 0, 0, LedgerStep.none rfl rfl rfl rfl rfl, by simp⟩
   | nextLoanBy who amount payload => exact absurd h (by simp [step])
   | completeLoanBy who initiator amount => exact absurd h (by simp [step])
+  | foreign k who a b => exact absurd h (by simp [step])
 
 /-- the ledger identities as a state invariant -/
 structure LedgerInv (K : Nat) (s : St) : Prop where
